@@ -230,7 +230,7 @@ READS_ASSUME = VEC_ASSUME + [
     "read-only clones, boxed clones, point readers and stored-only scans are compared with the reference only in states where everything is "
     "stored (right after a successful write / commit / re-import, no deleted slot); in other states they are exercised for the access tap only",
     "the generic entry points take the file-IO back-end only above 1 GiB; the IO sources are reached through fold_stored_io",
-    "CachedVec is not exercised"]
+    "CachedVec is exercised on freshly wrapped read-only clones (cold, cache hit, get_at, refusing budget); a wrapper kept across in-place edits (D11) is not driven"]
 
 
 @register("C08")
